@@ -35,14 +35,14 @@ CHECKS["C16"] = dict(
 CHECKS["C04"] = dict(
     engine="XH",
     technique="symbolic execution (CrossHair + z3) of the real precedence chain on real objects against an independent model of the statement; all paths confirmed within the bound",
-    text="CrossHair explores every path of the real Project.reuse_info_of -> NestedReuseTOML/ReuseTOML/ReuseDep5 chain for own information (6 kinds) x .license sibling (5 kinds) x every chain of 2 (quick) / 3 (thorough) nested REUSE.toml files, each absent or one of 12 precedence x information shapes, plus two tables in one file (last match wins) and .reuse/dep5; the postcondition compares attributed copyright/licence sets, their source path and source type, and whether the file was read, with a model written from the statement. Counterexamples are replayed on a real temporary tree through Project.from_directory.",
+    text="CrossHair explores every path of the real Project.reuse_info_of -> NestedReuseTOML/ReuseTOML/ReuseDep5 chain for own information (6 kinds) x .license sibling (5 kinds) x every chain of 2 (quick) / 3 (thorough) nested REUSE.toml files, each absent or one of 12 precedence x information shapes, plus two tables in one file (last match wins, also a literal-path table before a glob table), .reuse/dep5, nested directory names that sort before/after 'REUSE.toml', and two look-ups on one Project object (no state carried over); the postcondition compares attributed copyright/licence sets, their source path and source type, and whether the file was read, with a model written from the statement. Counterexamples are replayed on a real temporary tree through Project.from_directory.",
     note="Stubs: the file reader (C02's subject), is_binary, _determine_license_path; pathlib pure-path methods run natively on concrete values. The space is a finite table; the solver's role is exhaustive, feasibility-checked path exploration. Known finding closest-split (closest[0]) is carved out by a predicate and re-established on a real tree on every run.",
 )
 
 CHECKS["C06"] = dict(
     engine="XH+RZ3",
     technique="symbolic execution (CrossHair + z3) of the real licence-inventory pipeline against the statement's set algebra; z3 regex equivalence for the LicenseRef- pattern",
-    text="CrossHair explores every path of the real pipeline LICENSES listing -> Project._find_licenses -> FileReport.generate -> ProjectReport.generate -> used/unused for 11 ways of use (alone, '+', AND, OR, WITH, parentheses, LicenseRef, unknown, wrong case, none) in one or two files x 7 provision forms (absent, ID.txt, ID.md, ID, sub/ID.txt, ID+.txt, with .license) of three identifiers at a time, comparing missing/unused/bad/deprecated/extension-less/used with a model of the statement; z3 decides L(_LICENSEREF_PATTERN) = LicenseRef-[A-Za-z0-9.-]+ for identifiers of any length. Counterexamples are replayed on a real temporary tree through Project.from_directory.",
+    text="CrossHair explores every path of the real pipeline LICENSES listing -> Project._find_licenses -> FileReport.generate -> ProjectReport.generate -> used/unused for 14 ways of use (alone, '+', AND, OR, WITH, parentheses, LicenseRef, malformed LicenseRef, unknown, wrong case, a repeated identifier, none) in one or two files x 7 provision forms (absent, ID.txt, ID.md, ID, sub/ID.txt, ID+.txt, with .license) of three identifiers at a time, comparing missing/unused/bad/deprecated/extension-less/used with a model of the statement; z3 decides L(_LICENSEREF_PATTERN) = LicenseRef-[A-Za-z0-9.-]+ for identifiers of any length. Counterexamples are replayed on a real temporary tree through Project.from_directory.",
     note="Stubs: reuse_info_of (returns the chosen expression), directory listing, deterministic pseudo-checksum; native pathlib / licence parsing on concrete values. Known findings: used-but-unprovided LicenseRef- reported as bad; LicenseRef pattern accepts a trailing LF. One data pass over the bundled SPDX list is reported separately and is not a solver obligation.",
 )
 CHECKS["C01"] = dict(
@@ -97,33 +97,33 @@ CHECKS["C02"] = dict(
 CHECKS["C07"] = dict(
     engine="XH+PYRE",
     technique="symbolic execution (CrossHair + z3) of the real header builder, the real create_comment of every style and the real reader (patterns through PYRE), with a validated model of the Jinja template",
-    text="For every comment style class x {single, multi} where supported, CrossHair confirms over all paths that _create_new_header either raises CommentCreateError / MissingReuseInfoError or returns a header from which the tool's own reader yields exactly the requested copyright notice, licence expressions and (when rendered) contributor, for a request whose holder or contributor carries one free character (any code point but line breaks); representative styles are also explored under six template behaviours (default, dropping licences / copyright / contributors / everything, pre-commented), the copyright prefixes and year forms. Every entry of the extension and file-name tables is walked concretely and must map to one of the style classes covered.",
-    note="The template is replaced by a Python model; its default variant is compared with the bundled default_template.jinja2 on 300 inputs per run (harness error on mismatch). ReuseInfo fields are list-backed sets so that symbolic strings are never hashed. Known finding: the post-render check uses 'and', so a header that reads back differently (template dropping one kind; holder ending like a terminator) is written and reported as success - carved out and re-established from a witness on the real code each run.",
+    text="For every comment style class x {single, multi} where supported, CrossHair confirms over all paths that _create_new_header either raises CommentCreateError / MissingReuseInfoError or returns a header from which the tool's own reader yields exactly the requested copyright notice, licence expressions and (when rendered) contributor, for a request whose holder or contributor carries one free character (any code point but line breaks); representative styles are also explored under eight template behaviours (default, dropping licences / copyright / contributors / everything, pre-commented, adding on one axis while dropping the other), the copyright prefixes and year forms; three REAL Jinja templates (bundled default, a project template and a pre-commented project template found through get_template) must render the requested lines verbatim for every printable ASCII character. Every entry of the extension and file-name tables is walked concretely and must map to one of the style classes covered.",
+    note="The template is replaced by a Python model; its default variant is compared with the bundled default_template.jinja2 on 300 inputs per run (harness error on mismatch). ReuseInfo fields are list-backed sets so that symbolic strings are never hashed. Known findings (narrow carve-outs, re-established from witnesses on the real code each run): the post-render check uses 'and', so a template dropping exactly one kind, or a value the READER truncates (ends like a terminator / mirrored prefix), is written and reported as success; a contributor containing 'Copyright ' / '© ' is also read back as a notice.",
 )
 
 CHECKS["C08"] = dict(
     engine="XH+PYRE",
     technique="symbolic execution (CrossHair + z3): solver-driven exhaustive exploration of file-body shapes through the real header placement code and add_header_to_file, judged by a reference decomposition",
-    text="For every comment style x {single, multi}, in replacing and --no-replace mode, and every body of 2 items (3 for eight representative styles; thorough 3/4) drawn from {blank, white space, code, indented code, own-style comment, foreign comment, an existing tool-written REUSE header, shebang-like first line, absent} with and without final newline, CrossHair confirms that the output's non-blank lines are the input's, in order, with exactly one contiguous block (the new header) inserted and at most the first REUSE comment block (minus shebang lines) removed, that shebang lines stay first and that the final newline is kept. At file level (add_header_to_file over an in-memory open) it confirms for LF/CRLF/CR x BOM x final newline that one line-ending convention is kept and that the file result equals the text-level result.",
+    text="For every comment style x {single, multi}, in replacing and --no-replace mode, and every body of 2 items (3 for eight representative styles; thorough 3/4) drawn from {blank, white space, code, indented code, own-style comment, foreign comment, an existing tool-written REUSE header (also with trailing blanks), shebang-like first line, a shebang-like line further down, absent} with and without final newline, CrossHair confirms that the output's non-blank lines are the input's, in order, with exactly ONE header block of the file's style inserted and at most the first REUSE comment block (minus shebang lines) removed, that the text before the header is unchanged (leading blank lines, indentation), that shebang lines stay first and that the final newline is kept. At file level (add_header_to_file over an in-memory open) it confirms for LF/CRLF/CR x BOM x final newline that one line-ending convention is kept and that the file result equals the text-level result.",
     note="After the solver fixes a body shape the text is concrete (patterns then run in the real re); the solver contributes exhaustive shape exploration. Known finding: a leading byte order mark does not stay first. Outside: mixed line endings, longer bodies.",
 )
 CHECKS["C09"] = dict(
     engine="XH+PYRE",
     technique="symbolic execution (CrossHair + z3) of one annotate step (real create_header / find_and_replace_header / add_new_header / merge) from every pre-state in the bound, postcondition: declared information only grows",
-    text="Histories are not explored: one inductive step. For every style x form, replace and --no-replace, with and without --merge-copyrights, and every body in the bound (including a header the tool itself wrote earlier at the top, in the middle or after a shebang), CrossHair confirms that the tool's own reader yields after the step a superset of what it yielded before plus the requested copyright notice, licence expression and contributor. The post-state is again a tool-written header, so the step covers sequences of such steps.",
+    text="Histories are not explored: one inductive step. For every style x form, replace and --no-replace, with and without --merge-copyrights, and every body in the bound (including a header the tool itself wrote earlier at the top, in the middle or after a shebang - with contributors, contributor-only, with trailing blanks, or stating a spaced year range for the same holder), CrossHair confirms that the tool's own reader yields after the step a superset of what it yielded before plus the requested copyright notice, licence expression and contributor. The post-state is again a tool-written header, so the step covers sequences of such steps.",
     note="Pre-states are those the writer or the generated bodies produce; hand-edited header shapes are outside. Year-range arithmetic of merging is C20's. --skip-existing is file-level (C11).",
 )
 CHECKS["C10"] = dict(
     engine="XH+PYRE",
     technique="symbolic execution (CrossHair + z3): f(f(t)) == f(t) for the real find_and_replace_header over every body shape in the bound",
-    text="For every style x form and every body in the bound (as C08), CrossHair confirms that applying the real find_and_replace_header (with the real create_header and reader) twice with identical arguments gives the same text as applying it once - i.e. the tool finds the header it wrote and does not stack a second one.",
+    text="For every style x form and every body in the bound (as C08), CrossHair confirms that applying the real find_and_replace_header (with the real create_header and reader) twice with identical arguments gives the same text as applying it once - i.e. the tool finds the header it wrote and does not stack a second one; also for requests carrying only contributors / only a licence / only a copyright notice and for an existing header of more than 4 KiB (80 holders).",
     note="--no-replace is excluded (stacking is that option's documented meaning). Known finding: Julia with --multi-line never finds its own '#=' header (single-line '#' detection is tried first) and stacks headers.",
 )
 
 CHECKS["C11"] = dict(
     engine="XH",
     technique="symbolic execution (CrossHair + z3) of the real annotate command body and add_header_to_file over a file-system model with header construction as a symbolic fault point",
-    text="For two paths with symbolic type (recognised / unrecognised / uncommentable / binary), symbolic pre-existing .license sibling, symbolic outcome of header construction per path (ok, CommentCreateError, MissingReuseInfoError), --skip-existing, --no-replace, each style option and line-handling option, CrossHair confirms over all paths that a failing path and its .license sibling are unchanged (none created), every other path is processed, the exit status is 1 iff some path failed, and a usage error leaves the model untouched.",
+    text="For two paths with symbolic type (recognised / unrecognised / uncommentable / binary / binary content under a recognised name), symbolic pre-existing .license sibling, symbolic outcome of header construction per path (ok, CommentCreateError, MissingReuseInfoError), --skip-existing, --no-replace, each style option and line-handling option, CrossHair confirms over all paths that a failing path and its .license sibling are unchanged (none created), every other path is processed, the exit status is 1 iff some path failed, a usage error (unrecognised type without an option; a forced --style that lacks the requested --single-line/--multi-line form) leaves the model untouched, and no exception other than the documented ones escapes the command.",
     note="Stubs: Path/open model, is_binary by extension, header builder replaced by the fault point, click's option parser. Known finding (replayed through the real CLI on a temporary project each run): the .license sibling is touch()ed before the header is built and is left behind when building fails.",
 )
 
